@@ -142,6 +142,12 @@ SEEDS = {
  "S50-c16-same-operand-t-contact-skipped": dict(prop="C16", origin="independent sub-agent",
     change="possible_intersection: for two segments of the same operand a meeting point that is an end point of either segment is reported as no intersection",
     needs="a T contact (end point of one segment in the interior of the other) between two segments of the SAME operand, e.g. two parts of a multipolygon touching in a vertex of one on an edge of the other"),
+ "S51-c04-same-operand-endpoint-contact-skipped": dict(prop="C04", origin="independent sub-agent (same idea as S50, restricted differently)",
+    change="possible_intersection: a new match arm returns 0 for two segments of the same operand meeting in an end point of one of them",
+    needs="an operand with a ring vertex in the interior of another of its own edges (hole touching its shell, parts touching vertex-on-edge) and an edge of the other operand overlapping that edge across the touch point or passing through it"),
+ "S52-c11-collinear-order-by-contour-id": dict(prop="C11", origin="independent sub-agent",
+    change="compare_segments: collinear segments of different operands are ordered by contour_id instead of subject-first (contour ids tie for the clipping polygons of a difference)",
+    needs="difference in which a collinear edge of the last subject polygon starts strictly inside a clipping edge already in the sweep line: the single result is the right region plus a zero-area spike, which derails the next operation it is fed into"),
  "S27-c06-empty-clipping-early-return": dict(prop="C06", origin="independent sub-agent",
     change="boolean_operation: early return of the subject when the clipping operand has no polygons, regardless of the operation",
     needs="intersection with an empty MultiPolygon on the right-hand side"),
